@@ -392,6 +392,7 @@ def _sweep_pads(ctx, binp, kinds, jlo, jhi, stats):
         for t in THRESHOLDS:
             probes[(k, t)] = 1 if t == 108 else t - 260
     cases = _gen(ctx, "sweep", pads={100000 * k + p for (k, t), p in probes.items()}, label="CFFLayoutGen probe")
+    cases = [c for c in cases if c["desc"]["ppad"] < 0]      # the Private DICT size sweep needs no probe
     for i, c in enumerate(cases):
         c["id"] = i + 1
     d = ctx.subdir("probe")
@@ -518,6 +519,13 @@ def run(ctx):
                        "the library, walked, read back and judged by TLC; evaluations = recorded events validated"
                        % (len(ofat), len(shapes), len(maxima), len(edges), len(sweep), len(rand), nbig))
     ctx.cov["bounds"]["recorded_files"] = stats.summary()
+    # liveness of the Private DICT size sweep (CFFLayoutGen PSweep): the Subrs offset stored in a Private DICT -- for
+    # the last one its own length -- must have been seen on both sides of and at the 107/108 boundary
+    seen = {dlt for f, dlt in stats.offsets.get(108, ()) if f == "subrs-rel"}
+    # (108 itself cannot occur for the last DICT: a length of 108 with a one-byte operand needs a two-byte operand)
+    if not {-2, -1, 1, 2} <= seen:
+        raise vlib.Infra("the Private DICT size sweep did not put the Subrs offset on both sides of 108 (seen %s)"
+                         % sorted(seen))
     if bad:
         _report(ctx, bad)
 
